@@ -145,3 +145,10 @@ PROPS['C20'] = _ev(['aws'], 'Unbounded proofs, on the real builder code of both 
                    'The custom-auth query string (format!/write!) is a bounded check against an RFC 3986 reference parser.', design_ref='DESIGN.md 3/C20',
                    level_note=TRUST_COMMON + ' uuid::Uuid::to_string is assumed to be the 36-character form; derived Clone impls are assumed to copy.',
                    eb=[EB_AWS])
+
+EK_NEG = {'crate': 'gneiss-mqtt', 'timeout': 900, 'jobs': 4, 'harnesses': [{'name': 'negotiated_settings_table', 'kind': 'complete', 'fn': 'build_negotiated_settings', 'expect_stub': False}]}
+PROPS['C07']['ek'] = [EK_NEG]
+PROPS['C14']['ek'] = [EK_NEG]
+
+EB_ACK = {'name': 'acktimeout', 'crate': 'gneiss-mqtt', 'module_dir': 'gneiss_mqtt', 'filters': ['engine::ack_timeouts'], 'tests': ['ack_timeouts_fire_exactly_at_deadline'], 'timeout': 3000}
+PROPS['C18']['eb'].append(EB_ACK)
